@@ -120,6 +120,8 @@ def run_job(job):
     for b in cfg['beads']:
         t = W.beads_table('none', b['inst'], rows=('BOK',)).rename(index={'BOK': b['id']})
         t.loc[b['id'], 'Clustering Channels'] = ', '.join(b['cluster'])
+        if b.get('only_second'):         # a row that calibrates its second channel only (first MEF cell blank)
+            t.loc[b['id'], xw.INSTR[b['inst']]['fl'][0] + ' MEF Values'] = None
         beads.append(t)
     bt = pd.concat(beads) if beads else W.beads_table('none', 'A', rows=('BOK',)).iloc[0:0]
     samples = []
@@ -180,8 +182,11 @@ def run_job(job):
         want = []
         for b in cfg['beads']:
             want += ['plot_beads/density_hist_%s.png' % b['id'], 'plot_beads/clustering_%s.png' % b['id']]
-            for c in xw.INSTR[b['inst']]['fl']:
+            for c in xw.INSTR[b['inst']]['fl'][(1 if b.get('only_second') else 0):]:
                 want += ['plot_beads/populations_%s_%s.png' % (c, b['id']), 'plot_beads/std_crv_%s_%s.png' % (c, b['id'])]
+            if b.get('only_second'):
+                unwanted = ['plot_beads/populations_%s_%s.png' % (xw.INSTR[b['inst']]['fl'][0], b['id'])]
+                labels += [('undocumented-figure', u) for u in unwanted if os.path.exists(os.path.join(d, u))]
         for s in cfg['samples']:
             want.append('plot_samples/%s.png' % s['id'])
         for w in want:
@@ -247,6 +252,8 @@ def workbook_configs(chk):
             fl = xw.INSTR[ins]['fl']
             cl = [fl[:1], fl, fl + xw.INSTR[ins]['extra'], fl + xw.INSTR[ins]['extra'] + xw.INSTR[ins]['sc'][1:]][(i + j + 2) % 4]   # 1..4 channels
             beads.append(dict(id='B%s%d' % (ins, j), inst=ins, cluster=cl))
+            if i % 3 == 1 and j == 0:    # a second beads row of the same instrument, calibrating its second channel only
+                beads.append(dict(id='B%s%dx' % (ins, j), inst=ins, cluster=fl, only_second=True))
         if i % 5 == 4:
             beads = []
         samples = []
